@@ -5,37 +5,108 @@ and `eager` (naive scalar code on the components read through operator[] / opera
 KINDS = {"V": ("tvector<3u, T>", 1, 3), "M": ("tmatrix<3u, 3u, T>", 2, 3), "S": ("stensor<3u, T>", 1, 6),
          "T": ("tensor<3u, T>", 1, 9), "D": ("st2tost2<3u, T>", 2, 6)}
 NOPER = 3  # operands per kind
+NQ = 2       # 4x4 matrices q0, q1 (sources of slices and sub-matrices)
+NBUF = 48    # external buffer `buf` (views on external memory: View, CoalescedView, StridedCoalescedView)
+PTRS = {"pt0": [9, 4, 20], "pt1": [0, 13, 7], "ps0": [5, 17, 2, 11, 30, 23]}   # pointer tables of the coalesced views (offsets in buf)
 CONSTS = ["T(2)", "T(3)", "T(5) / T(4)", "x0", "x1", "T(7)"]
 DIVS = ["T(2)", "T(3)", "T(4)"]
 
 
-def gen_expr(rng, kind, depth):
-    """tree: ('leaf', kind, k) ('add'|'sub', a, b) ('neg', a) ('scl', c, a) ('scr', a, c) ('div', a, c) ('prod', kind, a, b)"""
+def gen_expr(rng, kind, depth, pview=0.0, leaf=None, elementwise=False):
+    """tree: ('leaf', kind, k) ('vleaf', ...) ('add'|'sub', a, b) ('neg', a) ('scl', c, a) ('scr', a, c) ('div', a, c) ('prod', kind, a, b)
+    pview: probability that a leaf is a view; leaf: callback giving the leaves (aliasing programs); elementwise: no products"""
+    def G(k, d):
+        return gen_expr(rng, k, d, pview, leaf if k == kind else None, elementwise)
     if depth <= 0 or rng.random() < 0.2:
+        if leaf is not None:
+            return leaf(rng)
+        if rng.random() < pview:
+            return view_leaf(rng, kind)
         return ("leaf", kind, rng.randrange(NOPER))
     r = rng.random()
-    if r < 0.3:
-        return (rng.choice(["add", "sub"]), gen_expr(rng, kind, depth - 1), gen_expr(rng, kind, depth - 1))
+    if r < 0.3 or (elementwise and r >= 0.75):
+        return (rng.choice(["add", "sub"]), G(kind, depth - 1), G(kind, depth - 1))
     if r < 0.4:
-        return ("neg", gen_expr(rng, kind, depth - 1))
+        return ("neg", G(kind, depth - 1))
     if r < 0.55:
-        return ("scl", rng.choice(CONSTS), gen_expr(rng, kind, depth - 1))
+        return ("scl", rng.choice(CONSTS), G(kind, depth - 1))
     if r < 0.65:
-        return ("scr", gen_expr(rng, kind, depth - 1), rng.choice(CONSTS))
+        return ("scr", G(kind, depth - 1), rng.choice(CONSTS))
     if r < 0.75:
-        return ("div", gen_expr(rng, kind, depth - 1), rng.choice(DIVS))
+        return ("div", G(kind, depth - 1), rng.choice(DIVS))
     if kind == "V":
-        return ("prod", "MV", gen_expr(rng, "M", depth - 1), gen_expr(rng, "V", depth - 1))
+        return ("prod", "MV", G("M", depth - 1), G("V", depth - 1))
     if kind == "S":
-        return ("prod", "DS", gen_expr(rng, "D", depth - 1), gen_expr(rng, "S", depth - 1))
+        return ("prod", "DS", G("D", depth - 1), G("S", depth - 1))
     if kind == "M":
         # operands of tmatrix * tmatrix must be objects: TMatrixTMatrixExpr does not accept temporaries (does not compile)
         return ("prod", "MM", ("leaf", "M", rng.randrange(NOPER)), ("leaf", "M", rng.randrange(NOPER)))
-    return (rng.choice(["add", "sub"]), gen_expr(rng, kind, depth - 1), gen_expr(rng, kind, depth - 1))
+    return (rng.choice(["add", "sub"]), G(kind, depth - 1), G(kind, depth - 1))
+
+
+def _flat(kind, idx):
+    return idx[0] if len(idx) == 1 else idx[0] * KINDS[kind][2] + idx[1]
+
+
+def view_leaf(rng, kind, containers=None, mutable=False):
+    """a view used as an operand: ('vleaf', kind, C++ expression, {idx: naive scalar C++}, {idx: (container, flat address)}).
+    The naive scalar reads the cell directly (matrix(i, j) / buf[k]): it never goes through a view."""
+    c = "c" if (rng.random() < 0.5 and not mutable) else ""     # through a const reference or not
+    opts = []
+    if kind == "V":
+        o, q = rng.randrange(NOPER), rng.randrange(NQ)
+        I3, I4, J = rng.randrange(3), rng.randrange(4), rng.randrange(2)
+        S, O = rng.choice([1, 2, 3, 5]), rng.randrange(6)
+        opts = [("%sm%d.template row_view<%d>()" % (c, o, I3), lambda k: ("m%d(%d, %d)" % (o, I3, k), ("m%d" % o, 3 * I3 + k))),
+                ("%sm%d.template column_view<%d>()" % (c, o, I3), lambda k: ("m%d(%d, %d)" % (o, k, I3), ("m%d" % o, 3 * k + I3))),
+                ("%sq%d.template row_view<%d, %d, 3>()" % (c, q, I4, J), lambda k: ("q%d(%d, %d)" % (q, I4, J + k), ("q%d" % q, 4 * I4 + J + k))),
+                ("%sq%d.template column_view<%d, %d, 3>()" % (c, q, I4, J), lambda k: ("q%d(%d, %d)" % (q, J + k, I4), ("q%d" % q, 4 * (J + k) + I4))),
+                ("%sq%d.template column_view<%d, %d, 3>()" % (c, q, I4, J), lambda k: ("q%d(%d, %d)" % (q, J + k, I4), ("q%d" % q, 4 * (J + k) + I4))),
+                ("map<%stvector<3u, T>, FixedSizeVectorIndexingPolicy<unsigned short, 3, %d>>(%sbuf + %d)" % ("const " if c else "", S, c, O),
+                 lambda k: ("buf[%d]" % (O + k * S), ("buf", O + k * S))),
+                ("map_strided<%stvector<3u, T>>(%sbuf + %d, static_cast<unsigned short>(%d))" % ("const " if c else "", c, O, S),
+                 lambda k: ("buf[%d]" % (O + k * S), ("buf", O + k * S)))]
+        for nm in ("pt0", "pt1"):
+            opts.append(("map<%stvector<3u, T>>(%s%s)" % ("const " if c else "", c, nm), lambda k, nm=nm: ("buf[%d]" % PTRS[nm][k], ("buf", PTRS[nm][k]))))
+    elif kind == "M":
+        q, I, J = rng.randrange(NQ), rng.randrange(2), rng.randrange(2)
+        S, O = rng.choice([3, 4, 5]), rng.randrange(8)
+        opts = [("%sq%d.template submatrix_view<%d, %d, 3, 3>()" % (c, q, I, J), lambda k: ("q%d(%d, %d)" % (q, I + k // 3, J + k % 3), ("q%d" % q, 4 * (I + k // 3) + J + k % 3))),
+                ("map<%stmatrix<3u, 3u, T>, FixedSizeRowMajorMatrixIndexingPolicy<unsigned short, 3, 3, %d>>(%sbuf + %d)" % ("const " if c else "", S, c, O),
+                 lambda k: ("buf[%d]" % (O + (k // 3) * S + k % 3), ("buf", O + (k // 3) * S + k % 3)))]
+    elif kind == "S":
+        S, O = rng.choice([1, 2, 3]), rng.randrange(8)
+        opts = [("map<%sstensor<3u, T>>(%sbuf + %d)" % ("const " if c else "", c, O), lambda k: ("buf[%d]" % (O + k), ("buf", O + k))),
+                ("map_strided<%sstensor<3u, T>>(%sbuf + %d, static_cast<unsigned short>(%d))" % ("const " if c else "", c, O, S),
+                 lambda k: ("buf[%d]" % (O + k * S), ("buf", O + k * S))),
+                ("map<%sstensor<3u, T>>(%sps0)" % ("const " if c else "", c), lambda k: ("buf[%d]" % PTRS["ps0"][k], ("buf", PTRS["ps0"][k])))]
+    elif kind == "T":
+        O = rng.randrange(12)
+        opts = [("map<%stensor<3u, T>>(%sbuf + %d)" % ("const " if c else "", c, O), lambda k: ("buf[%d]" % (O + k), ("buf", O + k)))]
+    else:
+        O = rng.randrange(12)
+        opts = [("map<%sst2tost2<3u, T>>(%sbuf + %d)" % ("const " if c else "", c, O), lambda k: ("buf[%d]" % (O + k), ("buf", O + k)))]
+    if containers is not None:
+        opts = [o for o in opts if any(o[1](0)[1][0] == cn for cn in containers)] or opts
+    cxx, f = rng.choice(opts)
+    comps, addrs = {}, {}
+    for idx in indices(kind):
+        sc, ad = f(_flat(kind, idx))
+        comps[idx], addrs[idx] = sc, ad
+    return ("vleaf", kind, cxx, comps, addrs)
+
+
+def leaf_addr(e, idx):
+    """(container, flat address) read by component idx of a leaf"""
+    if e[0] == "vleaf":
+        return e[4][idx]
+    return ("%s%d" % (e[1].lower(), e[2]), _flat(e[1], idx))
 
 
 def lazy(e):
     t = e[0]
+    if t == "vleaf":
+        return e[2]
     if t == "leaf":
         return "%s%d" % (e[1].lower(), e[2])
     if t == "add":
@@ -56,6 +127,8 @@ def lazy(e):
 def comp(e, idx):
     """scalar C++ expression of component idx (tuple) computed naively"""
     t = e[0]
+    if t == "vleaf":
+        return e[3][idx]
     if t == "leaf":
         n = "%s%d" % (e[1].lower(), e[2])
         return "%s[%d]" % (n, idx[0]) if len(idx) == 1 else "%s(%d, %d)" % (n, idx[0], idx[1])
@@ -91,6 +164,9 @@ def var_names():
         for o in range(NOPER):
             for idx in indices(k):
                 names.append("%s%d_%s" % (k.lower(), o, "_".join(str(i) for i in idx)))
+    for o in range(NQ):
+        names += ["q%d_%d_%d" % (o, i, j) for i in range(4) for j in range(4)]
+    names += ["buf_%d" % i for i in range(NBUF)]
     return names
 
 
@@ -106,30 +182,116 @@ def decls():
                 L.append("  for (unsigned short i = 0; i < %d; ++i) %s[i] = in[p++];" % (n, nm))
             else:
                 L.append("  for (unsigned short i = 0; i < %d; ++i) for (unsigned short j = 0; j < %d; ++j) %s(i, j) = in[p++];" % (n, n, nm))
+            L.append("  const auto& c%s = %s;" % (nm, nm))
+    for o in range(NQ):
+        L.append("  tmatrix<4u, 4u, T> q%d;" % o)
+        L.append("  for (unsigned short i = 0; i < 4; ++i) for (unsigned short j = 0; j < 4; ++j) q%d(i, j) = in[p++];" % o)
+        L.append("  const auto& cq%d = q%d;" % (o, o))
+    L.append("  T buf[%d];" % NBUF)
+    L.append("  for (int i = 0; i < %d; ++i) buf[i] = in[p++];" % NBUF)
+    L.append("  const T* const cbuf = buf;")
+    for nm, offs in PTRS.items():
+        L.append("  std::array<T*, %d> %s{%s};" % (len(offs), nm, ", ".join("buf + %d" % o for o in offs)))
+        L.append("  const std::array<const T*, %d> c%s{%s};" % (len(offs), nm, ", ".join("cbuf + %d" % o for o in offs)))
     return "\n".join(L)
 
 
-def program(k, kind, e):
+def container_elems(name):
+    """naive accessors of every element of a container, in storage order"""
+    if name == "buf":
+        return ["buf[%d]" % i for i in range(NBUF)]
+    if name[0] == "q":
+        return ["%s(%d, %d)" % (name, i, j) for i in range(4) for j in range(4)]
+    kind = name[0].upper()
+    return ["%s[%d]" % (name, i[0]) if len(i) == 1 else "%s(%d, %d)" % (name, i[0], i[1]) for i in indices(kind)]
+
+
+def leaves_of(e):
+    if e[0] in ("leaf", "vleaf"):
+        return [e]
+    return [l for a in e[1:] if isinstance(a, tuple) for l in leaves_of(a)]
+
+
+def gen_program(rng, k, kind):
+    """(kind, expression, destination, mode).  mode 'plain': fresh object assigned from the expression (leaves may be views);
+    'viewdst': the destination is a view or an existing object that the expression does not touch;
+    'alias': the destination (view or object) also occurs in the (element-wise) expression, possibly with other views of the
+    same container, such that no cell written at an earlier index is read at a later one (the condition of the theorem
+    C17_assign_lazy_eq_eager, decided here on the address maps)."""
+    mode = ("plain", "viewdst", "alias")[(k // 5) % 3]
+    depth = 3 if k % 2 else 4
+    if mode == "plain":
+        return (kind, gen_expr(rng, kind, depth, pview=0.5), None, mode)
+    for _ in range(200):
+        dest = view_leaf(rng, kind, mutable=True) if rng.random() < 0.75 else ("leaf", kind, rng.randrange(NOPER))
+        dcont = leaf_addr(dest, indices(kind)[0])[0]
+        if mode == "viewdst":
+            e = gen_expr(rng, kind, depth, pview=0.5)
+            if all(leaf_addr(l, indices(l[1])[0])[0] != dcont for l in leaves_of(e)):
+                return (kind, e, dest, mode)
+        else:
+            def leaf(r):
+                x = r.random()
+                if x < 0.4:
+                    return dest
+                if x < 0.8:
+                    return view_leaf(r, kind, containers=[dcont])
+                return ("leaf", kind, r.randrange(NOPER)) if r.random() < 0.5 else view_leaf(r, kind)
+            e = gen_expr(rng, kind, depth, leaf=leaf, elementwise=True)
+            ls = leaves_of(e)
+            if not any(l is dest for l in ls):
+                continue
+            order = indices(kind)
+            ok = True
+            for a, ik in enumerate(order):
+                reads = {leaf_addr(l, ik) for l in ls}
+                if any(leaf_addr(dest, order[b]) in reads for b in range(a)):
+                    ok = False
+                    break
+            if ok:
+                return (kind, e, dest, mode)
+    return (kind, gen_expr(rng, kind, depth, pview=0.5), None, "plain")
+
+
+def program(k, kind, e, dest=None):
     ty, ar, n = KINDS[kind]
-    L = ["template <typename T> std::vector<T> lazy_%d(const std::vector<T>& in) {" % k, decls(),
-         "  const %s r = %s;" % (ty, lazy(e)), "  std::vector<T> out;"]
-    for idx in indices(kind):
-        L.append("  out.push_back(%s);" % ("r[%d]" % idx[0] if ar == 1 else "r(%d, %d)" % idx))
-    L += ["  return out;", "}", "template <typename T> std::vector<T> eager_%d(const std::vector<T>& in) {" % k, decls(), "  std::vector<T> out;"]
-    for idx in indices(kind):
-        L.append("  out.push_back(%s);" % comp(e, idx))
+    L = ["template <typename T> std::vector<T> lazy_%d(const std::vector<T>& in) {" % k, decls()]
+    if dest is None:
+        L += ["  const %s r = %s;" % (ty, lazy(e)), "  std::vector<T> out;"]
+        for idx in indices(kind):
+            L.append("  out.push_back(%s);" % ("r[%d]" % idx[0] if ar == 1 else "r(%d, %d)" % idx))
+        L += ["  return out;", "}", "template <typename T> std::vector<T> eager_%d(const std::vector<T>& in) {" % k, decls(), "  std::vector<T> out;"]
+        for idx in indices(kind):
+            L.append("  out.push_back(%s);" % comp(e, idx))
+    else:
+        # assignment through the destination (a view or an existing object); the whole underlying container is observed
+        cont = leaf_addr(dest, indices(kind)[0])[0]
+        elems = container_elems(cont)
+        L += ["  %s = %s;" % (lazy(dest), lazy(e)), "  std::vector<T> out;"]
+        for a in elems:
+            L.append("  out.push_back(%s);" % a)
+        L += ["  return out;", "}", "template <typename T> std::vector<T> eager_%d(const std::vector<T>& in) {" % k, decls(), "  std::vector<T> out;"]
+        cellof = {leaf_addr(dest, idx)[1]: idx for idx in indices(kind)}
+        for flat, a in enumerate(elems):
+            L.append("  out.push_back(%s);" % (comp(e, cellof[flat]) if flat in cellof else a))
     L += ["  return out;", "}"]
     return "\n".join(L)
 
 
+def describe(p):
+    kind, e, dest, mode = p
+    return lazy(e) if dest is None else "%s = %s" % (lazy(dest), lazy(e))
+
+
 def translation_unit(progs):
     names = var_names()
-    L = ['#include "symtfel.hxx"', '#include <vector>', '#include <random>', '#include <cstring>', '#include <cstdio>', '#include <cmath>',
+    L = ['#include "symtfel.hxx"', '#include <vector>', '#include <random>', '#include <cstring>', '#include <cstdio>', '#include <cmath>', '#include <array>',
          '#include "TFEL/Math/tvector.hxx"', '#include "TFEL/Math/tmatrix.hxx"', '#include "TFEL/Math/stensor.hxx"', '#include "TFEL/Math/tensor.hxx"',
-         '#include "TFEL/Math/st2tost2.hxx"', 'using namespace tfel::math;', 'using symv::Sym;', '#pragma GCC diagnostic ignored "-Wunused-variable"',
+         '#include "TFEL/Math/st2tost2.hxx"', '#include "TFEL/Math/Array/View.hxx"', '#include "TFEL/Math/Array/CoalescedView.hxx"',
+         '#include "TFEL/Math/Array/StridedCoalescedView.hxx"', 'using namespace tfel::math;', 'using symv::Sym;', '#pragma GCC diagnostic ignored "-Wunused-variable"',
          '#pragma GCC diagnostic ignored "-Wunused-but-set-variable"']
-    for k, (kind, e) in enumerate(progs):
-        L.append(program(k, kind, e))
+    for k, (kind, e, dest, mode) in enumerate(progs):
+        L.append(program(k, kind, e, dest))
     L.append("static const char* names[] = {" + ", ".join('"%s"' % n for n in names) + "};")
     L.append("constexpr int NIN = %d;" % len(names))
     L.append("""
@@ -177,8 +339,8 @@ def properties(progs):
          "Ltac list_eq := lazymatch goal with",
          "  | |- cons _ _ = cons _ _ => apply f_equal2; [ first [ reflexivity | ring | field ] | list_eq ]",
          "  | |- nil = nil => reflexivity end.", ""]
-    for k, (kind, e) in enumerate(progs):
-        L.append("(* %s : r = %s *)" % (KINDS[kind][0], lazy(e)[:400]))
+    for k, p in enumerate(progs):
+        L.append("(* %s, %s : %s *)" % (KINDS[p[0]][0], p[3], describe(p)[:400]))
         L.append("Theorem C17_program_%d : forall %s : R,\n  lazy_%d %s = eager_%d %s." % (k, names, k, names, k, names))
         L.append("Proof. intros. unfold lazy_%d, eager_%d. cbv zeta. list_eq. Qed." % (k, k))
         L.append("Print Assumptions C17_program_%d.\n" % k)
